@@ -516,10 +516,12 @@ class CompositeFrontend(ConstrainedFrontend):
         if len(combined_noncommons):
             _, merged_noncommon = combined_noncommons[0].merge(combined_noncommons[1:], merge_conditions)
 
-            if any(v in merged._solvers for v in merged_noncommon.variables):
+            if not merged_noncommon.variables or any(v in merged._solvers for v in merged_noncommon.variables):
                 # it mentions a variable of a common child (typically one of the merge conditions does): storing it
                 # under that name would replace the common child and lose its constraints, so it is added the way
-                # any constraint over several children is
+                # any constraint over several children is.  (Likewise if it mentions no variable at all - every
+                # alternative is concretely False: a child is filed under its variables, this one would be filed
+                # nowhere.)
                 merged.add(merged_noncommon.constraints)
             else:
                 merged._owned_solvers.add(merged_noncommon)
